@@ -20,6 +20,18 @@ def phi_leaves(t):
     return [([], t)]
 
 
+def reader_consts_ok(t):
+    """a term  tree_unflatten(params['in_tree'], ARGS[params['num_consts']:])  - constants are PREPENDED by initial_style_bind, so the reader drops a prefix"""
+    for x in subterms(t):
+        if is_call(x, "tree_unflatten") and len(x[2]) == 2 and is_t(x[2][1], "index") and is_t(x[2][1][2], "sliceobj"):
+            lo, hi, st = x[2][1][2][1:4]
+            key_in = is_t(x[2][0], "index") and x[2][0][2] == C("in_tree")
+            nc = (is_t(lo, "index") and lo[2] == C("num_consts")) or (is_t(lo, "call") and is_t(lo[1], "attr") and lo[1][2] == "get" and lo[2] and lo[2][0] == C("num_consts"))
+            if key_in:
+                return nc and hi == C(None) and st == C(None), x
+    return None, None
+
+
 def check_loop(chk, inst, res, where, *, jaxpr=P("jaxpr"), eqns=None, const_wrap=None, invar_value=None, dispatch_ok=None, rule="INTERP-SKELETON", wrap_invals=None, final_read=True):
     """obligations of the canonical loop: bind constvars -> bind invars -> for eqn: read invars, get_bind_params, subfuns+invals, dispatch|bind,
     wrap single result, write outvars -> read jaxpr.outvars"""
